@@ -29,6 +29,7 @@ THEOREMS = ["Pt.Dist.checkWF_sound", "Pt.Dist.wf_clauses", "Pt.Dist.levels_respe
             "Pt.Dist.levels_complete", "Pt.Dist.number_tags_total", "Pt.Dist.number_tags_injective",
             "Pt.Dist.number_tags_messages", "Pt.Dist.number_tags_deterministic",
             # the partitioner model (PtModel.Partition)
+            "Pt.Dist.partition_wf", "Pt.Dist.partition_names_check_sound",
             "Pt.Dist.partition_wf_partial", "Pt.Dist.partition_check_sound", "Pt.Dist.partition_exec_faithful",
             "Pt.Dist.partition_comm_once", "Pt.Dist.partition_deterministic", "Pt.Dist.diagnoses_exact"]
 
@@ -223,6 +224,9 @@ def run(ctx: common.Ctx):
         for k, v in pat.items():
             if v:
                 dist[f"pattern:{k}"] += 1
+        for k, v in res.get("dist", {}).items():
+            if v:
+                dist[f"has:{k}"] += 1
         prog = {"seed": t["seed"], "index": t["index"], "profile": t["profile"]}
         replay = {"program": prog, "spec": t.get("spec") or G.generate(t["seed"], t["index"], t["profile"])}
         if res.get("rejected"):
@@ -292,6 +296,8 @@ def run(ctx: common.Ctx):
         qmeta.append(("partition", prog, res, replay))
         queries.append(res["partition_query"].replace(f"(dist partition {distrun.NAME_BASE} ", "(dist checkgood ", 1))
         qmeta.append(("checkgood", prog, res, replay))
+        queries.append(res["partition_query"].replace("(dist partition ", "(dist checknames ", 1))
+        qmeta.append(("checknames", prog, res, replay))
         if res.get("batches") is not None:
             why = batches_respect_graph(replay["spec"], [[tuple(c) for c in b] for b in res["batches"]])
             if why:
@@ -307,7 +313,7 @@ def run(ctx: common.Ctx):
             ctx.sample({"program": prog, "stats": st, "batches": res.get("batches"),
                         "gathered": res.get("gathered")})
     answers = common.driver_query_parallel(queries)
-    n_wf = n_wf_dis = n_b = n_b_dis = n_nt = n_nt_dis = n_sk = n_sk_dis = n_pm = n_pm_dis = n_cg = n_cg_dis = n_cg_good = 0
+    n_wf = n_wf_dis = n_b = n_b_dis = n_nt = n_nt_dis = n_sk = n_sk_dis = n_pm = n_pm_dis = n_cg = n_cg_dis = n_cg_good = n_gt = n_gt_dis = 0
     for (kind, prog, res, replay), a in zip(qmeta, answers):
         if kind == "wf":
             n_wf += 1
@@ -350,7 +356,20 @@ def run(ctx: common.Ctx):
                 ctx.broken.append(f"harness:cannot-canonicalise-real-names:{res['canon_problems'][0]}:{prog}")
                 continue
             try:
-                diff = distrun.partition_difference(res["real_partition"], distrun.model_partition(a, replay["spec"]))
+                mp = distrun.model_partition(a, replay["spec"])
+                diff = distrun.partition_difference(res["real_partition"], mp)
+                # what number_distributed_tags gathers on every rank = the tags of the MODEL partition's
+                # receives and sends of that rank (as a multiset; the order inside a batch is not modelled)
+                if diff is None and res.get("gathered") is not None:
+                    n_gt += 1
+                    for rnk, (mr, gt) in enumerate(zip(mp, res["gathered"])):
+                        want = sorted(x[2] for pp in mr["parts"] for x in pp["recvs"] + pp["sends"])
+                        if sorted(t for t in gt if t is not None) != want:
+                            n_gt_dis += 1
+                            ctx.violation("tags:gathered-sequence-vs-model-partition",
+                                          f"rank {rnk} of {prog} gathers tags {gt}, the model partition has {want}",
+                                          dict(replay, rank=rnk))
+                            break
             except Exception as e:      # noqa: BLE001
                 diff = (f"unparsable:{type(e).__name__}:{a[:60]}", "unparsable")
             if diff:
@@ -377,6 +396,9 @@ def run(ctx: common.Ctx):
             if not closed_valid or pv == pat["payload_through_send_holder"] or nf == pat["send_of_unmodified_recv"]:
                 n_cg_dis += 1
                 ctx.broken.append(f"correspondence:GoodProgram-hypothesis-vs-program-patterns:{a[:80]}:{prog}")
+        elif kind == "checknames":
+            if a != "ok true":
+                ctx.broken.append(f"correspondence:NamesOK-hypothesis-fails:{a}:{prog}")
         elif kind == "batches":
             n_b += 1
             try:
@@ -417,7 +439,8 @@ def run(ctx: common.Ctx):
                                 "model_partition_full_vs_real": [n_pm, n_pm_dis],
                                 "GoodProgram_hypothesis_checked": [n_cg, n_cg_dis],
                                 "programs_satisfying_GoodProgram": n_cg_good, "tags_across_ranks": [n_tag, n_tag_dis],
-                                "tag_table_vs_numberTags": [n_nt, n_nt_dis]})
+                                "tag_table_vs_numberTags": [n_nt, n_nt_dis],
+                                "gathered_tags_vs_model_partition": [n_gt, n_gt_dis]})
     # the model's own partitions through the verified checker (evidence for the full statement
     # `PartitionWFStatement`, which is not proved): every model partition of a program that satisfies
     # GoodProgram must pass checkWF
